@@ -2,6 +2,7 @@
 From Coq Require Import ZArith List.
 From Coq Require Import String.
 From Verif Require Import Base.Harness Base.Dec Model.Escrow Model.Ledger Model.EscrowTrace Proofs.EscrowProofs Proofs.LedgerProofs Proofs.EscrowTraceProofs.
+From Verif Require Model.DisputeSettle Proofs.NoHaltProofs Proofs.DisputeEscrowProofs.
 Import ListNotations.
 Open Scope Z_scope.
 
@@ -166,3 +167,68 @@ Theorem C04_trace_observed_meaning o s : einv s -> tproj s = ob_canon o ->
   /\ (e_credit_ops s < P -> floor_sum (ob_credits o) <= ob_tips o).
 Proof. exact (c04t_observed_meaning o s). Qed.
 Print Assumptions C04_trace_observed_meaning.
+
+(* ---- the dispute escrow (model Model/DisputeSettle.v, owner C13; tied to the Go code by C13's correspondence check) ----
+
+   [liabilities v s] = what the dispute escrow owes the lineage in state [s], in whole loya rounded up, computed with the
+   model's own refund / reward functions ([liabilities12]: the same in 10^-6 loya, the unit of the dust store): the dust
+   store; the fees paid while in prevote; escrowed stake + fees while funded and not executed; the refunds of the payer
+   records left after a failure (5 % of the fees: F21) or after an INVALID / SUPPORT execution; the rewards of the recorded
+   voters who have not claimed.  [linv] = NoHaltProofs.Settle.sinv strengthened by "liabilities <= escrow" and the
+   bookkeeping facts it needs.
+   RESTRICTIONS, all visible below: [env_ok2] = NoHaltProofs.Settle.op_ok for every operation (fees paid from ACCOUNTS,
+   ONE round: with payments from stake the statement is false - open finding C13b,
+   NoHaltProofs.Settle.stake_shortfall_halts_refuted - and several rounds are F22) plus [pot_covers] at the execution
+   operations (the recorded voters' shares add up to at most the pot: arithmetic of CalculateReward over C12's vote
+   records, not proved here, checked on the real application by C04_check_voter_pot); [c_S c <= P]: dispute fee <= 10^18. *)
+Theorem C04_dispute_inv_init v c now liq stk : 0 < DisputeSettle.c_S c <= P ->
+  DisputeEscrowProofs.linv v c (DisputeSettle.init_st now liq stk).
+Proof. exact (DisputeEscrowProofs.init_linv v c now liq stk). Qed.
+Print Assumptions C04_dispute_inv_init.
+
+Theorem C04_dispute_inv_step v c s o : DisputeSettle.fixc v = true ->
+  DisputeEscrowProofs.linv v c s -> DisputeEscrowProofs.op_ok2 v c s o ->
+  DisputeEscrowProofs.linv v c (fst (DisputeSettle.step v c s o)).
+Proof. exact (DisputeEscrowProofs.step_linv v c s o). Qed.
+Print Assumptions C04_dispute_inv_step.
+
+Theorem C04_dispute_escrow_covers v c s : DisputeEscrowProofs.linv v c s ->
+  DisputeEscrowProofs.liabilities v s <= DisputeSettle.s_esc s.
+Proof. exact (DisputeEscrowProofs.liabilities_covered v c s). Qed.
+Print Assumptions C04_dispute_escrow_covers.
+
+Theorem C04_dispute_escrow_covers_micro v c s : DisputeEscrowProofs.linv v c s ->
+  DisputeEscrowProofs.liabilities12 (DisputeSettle.fix35 v) s <= DisputeSettle.s_esc s * DisputeSettle.PR6.
+Proof. exact (DisputeEscrowProofs.liabilities12_covered v c s). Qed.
+Print Assumptions C04_dispute_escrow_covers_micro.
+
+Theorem C04_dispute_escrow_covers_histories v c : DisputeSettle.fixc v = true -> forall ops s,
+  DisputeEscrowProofs.linv v c s -> DisputeEscrowProofs.env_ok2 v c s ops ->
+  DisputeEscrowProofs.liabilities v (DisputeSettle.run v c s ops) <= DisputeSettle.s_esc (DisputeSettle.run v c s ops).
+Proof. exact (DisputeEscrowProofs.liabilities_covered_histories v c). Qed.
+Print Assumptions C04_dispute_escrow_covers_histories.
+
+(* in every such state no fee refund and no voter reward claim - by anybody, for any id - fails for lack of funds, and
+   the begin blocker's execution succeeds (the latter is NoHaltProofs.Settle.exec_block_never_fails) *)
+Theorem C04_dispute_withdraw_never_insufficient v c s who id : DisputeEscrowProofs.linv v c s ->
+  snd (DisputeSettle.step v c s (DisputeSettle.OWithdraw who id)) <> DisputeSettle.EInsufficient.
+Proof. exact (DisputeEscrowProofs.withdraw_never_insufficient v c s who id). Qed.
+Print Assumptions C04_dispute_withdraw_never_insufficient.
+
+Theorem C04_dispute_claim_never_insufficient v c s who id : DisputeEscrowProofs.linv v c s ->
+  snd (DisputeSettle.step v c s (DisputeSettle.OClaim who id)) <> DisputeSettle.EInsufficient.
+Proof. exact (DisputeEscrowProofs.claim_never_insufficient v c s who id). Qed.
+Print Assumptions C04_dispute_claim_never_insufficient.
+
+Theorem C04_dispute_exec_block_never_insufficient v c s : DisputeSettle.fixc v = true -> DisputeEscrowProofs.linv v c s ->
+  snd (DisputeSettle.step v c s DisputeSettle.OExecBlock) = DisputeSettle.OK.
+Proof. exact (DisputeEscrowProofs.exec_block_never_insufficient v c s). Qed.
+Print Assumptions C04_dispute_exec_block_never_insufficient.
+
+(* the hypotheses are satisfiable on a funded dispute with two payers, a vote, an INVALID execution, one refund withdrawn
+   and one reward claimed, and the bound is tight there (escrow = liabilities after the execution and at the end) *)
+Theorem C04_dispute_nonvacuous :
+  DisputeEscrowProofs.linv DisputeSettle.repo_variant DisputeSettleProofs.cfg0 DisputeSettleProofs.st0
+  /\ DisputeEscrowProofs.env_ok2 DisputeSettle.repo_variant DisputeSettleProofs.cfg0 DisputeSettleProofs.st0 DisputeEscrowProofs.ex2_ops.
+Proof. exact DisputeEscrowProofs.ex2_hypotheses. Qed.
+Print Assumptions C04_dispute_nonvacuous.
